@@ -61,6 +61,10 @@ def make_transformations():
 OMP_PAR_BEGIN = re.compile(r"^!\$omp\s+parallel(\s|$)(?!.*\bdo\b)", re.I)
 
 
+DECL_LIKE = re.compile(
+    r"^(subroutine|function|module|use|implicit|integer|real|double|logical|"
+    r"type|character|contains|end|public|private|interface|procedure)\b")
+
 FORBIDDEN_INSIDE = {
     # inner directive : enclosing region kinds in which it must not appear
     "acc data": {"acc parallel", "acc kernels"},
@@ -94,11 +98,25 @@ def directive_monitor(text):
                 return k
         return None
 
+    seen_exec = False
     for ln, raw in enumerate(lines):
         s = raw.strip().lower()
         if not s.startswith(("!$omp", "!$acc")):
+            if s and not s.startswith("!") and not DECL_LIKE.match(s):
+                seen_exec = True
+            if re.match(r"^(subroutine|function)\b", s):
+                seen_exec = False
             continue
         fam = "omp" if s.startswith("!$omp") else "acc"
+        if s.startswith("!$acc routine") and seen_exec:
+            return ("misplaced:acc routine",
+                    "line %d: '!$acc routine' after an executable statement"
+                    % (ln + 1))
+        if has_routine and s.startswith("!$acc loop") and re.search(
+                r"\b(gang|worker|vector)\b", s):
+            return ("nest:acc loop(parallelism)-in-acc routine",
+                    "line %d: '%s' inside a routine marked '!$acc routine' "
+                    "(seq)" % (ln + 1, s))
         words = s[5:].strip().split("(")[0].split()
         if not words:
             continue
@@ -131,6 +149,10 @@ def directive_monitor(text):
                 kind = "acc " + words[0]
         if kind is None:
             continue
+        if kind == "omp single" and "nowait" in words:
+            return ("clause:nowait-on-omp-single-begin",
+                    "line %d: '%s': before OpenMP 5.2 NOWAIT belongs on the "
+                    "END SINGLE directive" % (ln + 1, s))
         if has_routine and kind in ("acc parallel", "acc kernels", "acc data",
                                     "acc enter") or \
                 (has_routine and fam == "omp"):
